@@ -336,7 +336,9 @@ def run(ctx, replay):
     ctx.cov["coq_mismatches"] = len(mismatches)
     if mismatches:
         ctx.note("%d model/implementation mismatches" % len(mismatches))
-        flagged = set((v.get("stream"), str(v.get("case_id"))) for v in ctx.violations)
+        # a case already reported by a direct oracle is not reported twice - unless that report is a listed known finding:
+        # a known finding must not swallow a different disagreement on the same case
+        flagged = set((v.get("stream"), str(v.get("case_id"))) for v in ctx.violations if not match_known(ctx.pid, v, known))
         for mm in mismatches[:20]:
             if (mm["stream"], str(mm["case_id"])) in flagged:
                 continue
